@@ -26,6 +26,12 @@ fn cases(quick: bool) -> Vec<Case> {
     v.push(Case { name: "deep-nesting/nomatch", cfg: json!({"elem":[{"sel":"x y","element":obs}]}), input: rep(b"<div>", k), sel: true, opens: b"<div>" });
     let mut c5 = rep(b"<div>", k / 3); c5.extend_from_slice(b"<img alt=\""); c5.extend(rep(b"x", n));
     v.push(Case { name: "nesting+unterminated-attr/star", cfg: json!({"elem":[{"sel":"*","element":obs}]}), input: c5, sel: true, opens: b"<div>" });
+    // enough open elements for the stack to have grown past its first capacities, then a buffered token: the two
+    // consumers share one allowance (monotonicity in M is only visible when both grow)
+    for depth in [17usize, 20, 33] {
+        let mut c = rep(b"<div>", depth); c.extend_from_slice(b"<img alt=\""); c.extend(rep(b"x", if quick { 320 } else { 1500 }));
+        v.push(Case { name: "deep-nesting+unterminated-attr/star", cfg: json!({"elem":[{"sel":"*","element":obs}]}), input: c, sel: true, opens: b"<div>" });
+    }
     let mut c6 = rep(b"<div>", k / 2); c6.extend_from_slice(b"<!--"); c6.extend(rep(b"c", n / 2));
     v.push(Case { name: "nesting+unterminated-comment/star+comments", cfg: json!({"elem":[{"sel":"div","element":obs,"comments":obs}]}), input: c6, sel: true, opens: b"<div>" });
     let mut c7 = Vec::new(); for i in 0..(n / 4) { c7.extend_from_slice(format!("<b>t{i}</b>").as_bytes()); }
@@ -91,6 +97,10 @@ pub fn job_c10(out_dir: &str, tier: &str, seed: u64) {
                 for d in 0..=16usize { if need + 8 >= d && need + 8 - d >= prealloc { ms.push(need + 8 - d); } }
                 ms.push(prealloc);
                 ms.push(need * 2 + 1000);
+                // above the need: an even ladder up to twice the need (a run that succeeds under M must succeed under every larger limit)
+                let step = (need / 48).max(8);
+                let mut m2 = need + step;
+                while m2 <= need * 2 + step { ms.push(m2); m2 += step; }
                 ms.sort_unstable(); ms.dedup();
                 // a few limits twice (determinism)
                 let dup: Vec<usize> = (0..3).map(|_| *rng.pick(&ms)).collect();
@@ -109,6 +119,6 @@ pub fn job_c10(out_dir: &str, tier: &str, seed: u64) {
             }
         }
     }
-    sh.finish(json!({"rule": "13 input families built to grow each buffer (unterminated comment / attribute value / tag name under capturing and non-capturing handlers, deep nesting with matching and non-matching selectors, nesting + unterminated token, many small tokens, RCDATA + partial end tag) x preallocation {0, 16, 1024} x chunk sizes {1, 7, 10, 64, whole}; each is a sweep over every limit in [need-8, need+8] plus a geometric ladder from the preallocation up, some limits twice. evaluations = runs; a record is one sweep.",
+    sh.finish(json!({"rule": "16 input families built to grow each buffer (unterminated comment / attribute value / tag name under capturing and non-capturing handlers, deep nesting with matching and non-matching selectors, nesting + unterminated token, many small tokens, RCDATA + partial end tag) x preallocation {0, 16, 1024} x chunk sizes {1, 7, 10, 64, whole}; each is a sweep over every limit in [need-8, need+8] plus a geometric ladder from the preallocation up and an even ladder of 48 limits from the need to twice the need, some limits twice. evaluations = runs; a record is one sweep.",
         "runs": runs_total, "stack_item_size": itemsize}));
 }
